@@ -8,7 +8,8 @@ use std::io::{Read, Write};
 use std::time::{Duration, Instant};
 
 use sozu_command_lib::proto::command::{
-    request::RequestType, Cluster, HardStop, ListWorkers, QueryClustersHashes, QueryMetricsOptions,
+    request::RequestType, Cluster, CountRequests, HardStop, ListWorkers, QueryCertificatesFilters, QueryClusterByDomain,
+    QueryClustersHashes, QueryHealthChecks, QueryMetricsOptions, SetMetricDetail,
     Request, Response, ResponseStatus, ReturnListenSockets, SoftStop, Status, WorkerRequest,
 };
 use verif_harness::*;
@@ -134,6 +135,89 @@ fn probe() {
             println!("QUERY {name}: worker 0 answered Failure; client saw {seen}");
         }
     }
+    // reload configuration: message count of a small config, then through the hub; a bad path
+    {
+        use sozu_command_lib::config::Config;
+        let dir = tempfile::tempdir().unwrap();
+        let path = dir.path().join("c.toml");
+        std::fs::write(&path, "command_socket = \"/tmp/none.sock\"\n[clusters.r1]\nprotocol = \"tcp\"\nfrontends = [ { address = \"127.0.0.1:18080\" } ]\nbackends = [ { address = \"127.0.0.1:11026\" } ]\n").unwrap();
+        match Config::load_from_path(&path.to_string_lossy()) {
+            Ok(c) => match c.generate_config_messages() {
+                Ok(m) => println!("RELOAD config generates {} messages: {:?}", m.len(), m.iter().map(|x| x.content.short_name().to_string()).collect::<Vec<_>>()),
+                Err(e) => println!("RELOAD generate error {e}"),
+            },
+            Err(e) => println!("RELOAD load error {e}"),
+        }
+        let mut rig = Rig::start(1, 1);
+        let mut c = rig.connect();
+        c.send_raw(&frame(&Request::from(RequestType::ReloadConfiguration(path.to_string_lossy().to_string()))));
+        let mut seen = String::new();
+        let t0 = Instant::now();
+        while t0.elapsed() < Duration::from_secs(2) {
+            if let Some(wr) = rig.workers[0].as_mut().unwrap().recv::<WorkerRequest>(Duration::from_millis(20)) {
+                println!("RELOAD worker got {}", wr.id);
+                rig.workers[0].as_mut().unwrap().send_raw(&frame(&wresp(&wr.id, ResponseStatus::Ok, "")));
+            }
+            if let Some(r) = c.recv::<Response>(Duration::from_millis(20)) {
+                seen.push(status_code(r.status));
+            }
+        }
+        println!("RELOAD client saw {seen}");
+        let mut c2 = rig.connect();
+        c2.send_raw(&frame(&Request::from(RequestType::ReloadConfiguration("/nonexistent/x.toml".into()))));
+        let r = c2.recv::<Response>(Duration::from_millis(1500));
+        println!("RELOAD bad path: answer {:?}, hub finished {}", r.map(|r| (status_code(r.status), r.message)), rig.hub_finished());
+        if let Some(h) = rig.hub.take() { if rig.hub_finished() { println!("RELOAD hub result {:?}", h.join().map(|x| x.map_err(|e| e.chars().take(120).collect::<String>()))); } else { rig.hub = Some(h); } }
+    }
+    // load state of a corrupt file
+    {
+        let mut rig = Rig::start(1, 1);
+        let path = rig._dir.path().join("corrupt");
+        let mut f = std::fs::File::create(&path).unwrap();
+        for i in 0..2 {
+            let req: Request = RequestType::AddCluster(Cluster { cluster_id: format!("k{i}"), ..Default::default() }).into();
+            f.write_all(serde_json::to_string(&WorkerRequest::new(format!("SAVE-{i}"), req)).unwrap().as_bytes()).unwrap();
+            f.write_all(b"\n\0").unwrap();
+        }
+        f.write_all(b"{\"id\": garbage not json\n\0").unwrap();
+        drop(f);
+        let mut c = rig.connect();
+        c.send_raw(&frame(&Request::from(RequestType::LoadState(path.to_string_lossy().to_string()))));
+        let mut seen = String::new();
+        let t0 = Instant::now();
+        let mut ids = vec![];
+        while t0.elapsed() < Duration::from_secs(2) {
+            if let Some(wr) = rig.workers[0].as_mut().unwrap().recv::<WorkerRequest>(Duration::from_millis(20)) {
+                ids.push(wr.id.clone());
+                rig.workers[0].as_mut().unwrap().send_raw(&frame(&wresp(&wr.id, ResponseStatus::Ok, "")));
+            }
+            if let Some(r) = c.recv::<Response>(Duration::from_millis(20)) {
+                seen.push(status_code(r.status));
+                if r.status != 1 { println!("CORRUPT final: {}", r.message.chars().take(100).collect::<String>()); }
+            }
+        }
+        println!("CORRUPT worker got {ids:?}; client saw {seen}");
+        let mut c3 = rig.connect();
+        c3.send_raw(&frame(&add("after")));
+        let r: Option<WorkerRequest> = rig.workers[0].as_mut().unwrap().recv(Duration::from_secs(1));
+        println!("CORRUPT next request id {:?}", r.map(|r| r.id));
+    }
+    // two requests in one write on one connection
+    {
+        let mut rig = Rig::start(1, 1);
+        let mut c = rig.connect();
+        let mut two = frame(&Request::from(RequestType::ListWorkers(ListWorkers {})));
+        two.extend(frame(&add("p2")));
+        c.send_raw(&two);
+        let r: Option<WorkerRequest> = rig.workers[0].as_mut().unwrap().recv(Duration::from_secs(1));
+        if let Some(wr) = &r { rig.workers[0].as_mut().unwrap().send_raw(&frame(&wresp(&wr.id, ResponseStatus::Ok, ""))); }
+        let mut seen = String::new();
+        let t0 = Instant::now();
+        while t0.elapsed() < Duration::from_secs(2) {
+            if let Some(r) = c.recv::<Response>(Duration::from_millis(50)) { seen.push(status_code(r.status)); }
+        }
+        println!("PIPELINED list+add in one write: client saw {seen} (two requests sent)");
+    }
     // soft stop with a dead worker: no deadline
     {
         let mut rig = Rig::start(2, 1);
@@ -180,6 +264,21 @@ enum VerbK {
     NoneReq,
     Launch,
     RetSock,
+    /// LoadState of a file with `k` good entries followed by an unparsable one
+    LoadCorrupt(usize),
+    /// ReloadConfiguration of a configuration generating 5 messages per cluster
+    Reload(usize),
+    ReloadBad,
+    MaxConn,
+    ConfMetrics,
+    MetricDetail,
+    MetricDetailBad,
+    Count,
+    Hc,
+    Certs,
+    QueryById,
+    QueryDomain,
+    QueryCerts,
 }
 
 impl VerbK {
@@ -196,6 +295,20 @@ impl VerbK {
             ["load", k] => VerbK::Load(k.parse().ok()?),
             ["loadmissing"] => VerbK::LoadMissing,
             ["list"] => VerbK::List,
+            ["loadcorrupt", k] => VerbK::LoadCorrupt(k.parse().ok()?),
+            ["loadcorrupt"] => VerbK::LoadCorrupt(1),
+            ["reload", k] => VerbK::Reload(k.parse().ok()?),
+            ["reloadbad"] => VerbK::ReloadBad,
+            ["maxconn"] => VerbK::MaxConn,
+            ["confmetrics"] => VerbK::ConfMetrics,
+            ["metricdetail"] => VerbK::MetricDetail,
+            ["metricdetailbad"] => VerbK::MetricDetailBad,
+            ["count"] => VerbK::Count,
+            ["hc"] => VerbK::Hc,
+            ["certs"] => VerbK::Certs,
+            ["querybyid"] => VerbK::QueryById,
+            ["querydomain"] => VerbK::QueryDomain,
+            ["querycerts"] => VerbK::QueryCerts,
             ["none"] => VerbK::NoneReq,
             ["launch"] => VerbK::Launch,
             ["retsock"] => VerbK::RetSock,
@@ -203,21 +316,22 @@ impl VerbK {
         })
     }
     fn gathers(&self) -> bool {
-        matches!(self, VerbK::Add | VerbK::AddBig | VerbK::Query | VerbK::Status | VerbK::Metrics | VerbK::HardStop | VerbK::SoftStop | VerbK::Load(_))
+        matches!(self, VerbK::Add | VerbK::AddBig | VerbK::Query | VerbK::Status | VerbK::Metrics | VerbK::HardStop | VerbK::SoftStop | VerbK::Load(_) | VerbK::Reload(_) | VerbK::MaxConn | VerbK::ConfMetrics | VerbK::MetricDetail | VerbK::QueryById | VerbK::QueryDomain | VerbK::QueryCerts)
     }
     fn has_deadline(&self) -> bool {
-        matches!(self, VerbK::Add | VerbK::AddBig | VerbK::Query | VerbK::Status | VerbK::Metrics | VerbK::HardStop)
+        matches!(self, VerbK::Add | VerbK::AddBig | VerbK::Query | VerbK::Status | VerbK::Metrics | VerbK::HardStop | VerbK::MaxConn | VerbK::ConfMetrics | VerbK::MetricDetail | VerbK::QueryById | VerbK::QueryDomain | VerbK::QueryCerts)
     }
     fn is_stop(&self) -> bool {
         matches!(self, VerbK::HardStop | VerbK::SoftStop)
     }
     /// verbs whose Ok means "applied on every worker"
     fn is_mutating(&self) -> bool {
-        matches!(self, VerbK::Add | VerbK::AddBig | VerbK::Load(_))
+        matches!(self, VerbK::Add | VerbK::AddBig | VerbK::Load(_) | VerbK::Reload(_) | VerbK::MaxConn | VerbK::ConfMetrics)
     }
     fn subs(&self) -> usize {
         match self {
             VerbK::Load(k) => *k,
+            VerbK::Reload(k) => *k,
             _ => 1,
         }
     }
@@ -248,6 +362,8 @@ struct ReqInfo {
     finals: Vec<(char, usize)>,
     eof_at: Option<usize>,
     dropped: bool,
+    /// written back to back BEFORE another request on the same connection
+    pipelined_first: bool,
     sent_at: Instant,
     /// model age in units
     age: u64,
@@ -274,6 +390,10 @@ struct Run<'a> {
     hold_path: Option<std::path::PathBuf>,
     fake_hold: bool,
     op_names: Vec<String>,
+    /// `command_allowed_uids` excludes us: every request is refused
+    deny: bool,
+    /// a request that makes the handler panic was sent
+    crash_expected: bool,
 }
 
 struct HoldState {
@@ -331,6 +451,41 @@ impl<'a> Run<'a> {
                 RequestType::LoadState(path.to_string_lossy().to_string()).into()
             }
             VerbK::LoadMissing => RequestType::LoadState(format!("{}/nonexistent", self.rig._dir.path().display())).into(),
+            VerbK::LoadCorrupt(k) => {
+                self.load_seq += 1;
+                let path = self.rig._dir.path().join(format!("corrupt{}", self.load_seq));
+                let mut f = std::fs::File::create(&path).unwrap_or_else(|e| panic!("{SETUP} state file: {e}"));
+                for i in 0..*k {
+                    let req: Request = RequestType::AddCluster(Cluster { cluster_id: format!("k{}x{i}", self.load_seq), ..Default::default() }).into();
+                    f.write_all(serde_json::to_string(&WorkerRequest::new(format!("SAVE-{i}"), req)).unwrap().as_bytes()).unwrap();
+                    f.write_all(b"\n\0").unwrap();
+                }
+                f.write_all(b"{\"id\": this entry is not json\n\0").unwrap();
+                RequestType::LoadState(path.to_string_lossy().to_string()).into()
+            }
+            VerbK::Reload(k) => {
+                // one tcp cluster = 5 messages (listener, cluster, frontend, backend, activation)
+                self.load_seq += 1;
+                let path = self.rig._dir.path().join(format!("conf{}.toml", self.load_seq));
+                let mut toml = String::from("command_socket = \"/tmp/none.sock\"\n");
+                for j in 0..(*k / 5) {
+                    let port = 20000 + (idx * 16 + j) as u32 * 2;
+                    toml.push_str(&format!("[clusters.r{idx}x{j}]\nprotocol = \"tcp\"\nfrontends = [ {{ address = \"127.0.0.1:{port}\" }} ]\nbackends = [ {{ address = \"127.0.0.1:{}\" }} ]\n", port + 1));
+                }
+                std::fs::write(&path, toml).unwrap_or_else(|e| panic!("{SETUP} config file: {e}"));
+                RequestType::ReloadConfiguration(path.to_string_lossy().to_string()).into()
+            }
+            VerbK::ReloadBad => RequestType::ReloadConfiguration(format!("{}/no-such-config.toml", self.rig._dir.path().display())).into(),
+            VerbK::MaxConn => RequestType::SetMaxConnectionsPerIp(7).into(),
+            VerbK::ConfMetrics => RequestType::ConfigureMetrics(1).into(),
+            VerbK::MetricDetail => RequestType::SetMetricDetail(SetMetricDetail { client_id: format!("verif{idx}"), detail: Some(3), ttl_seconds: Some(30), ..Default::default() }).into(),
+            VerbK::MetricDetailBad => RequestType::SetMetricDetail(SetMetricDetail { client_id: "x".repeat(100), detail: Some(3), ..Default::default() }).into(),
+            VerbK::Count => RequestType::CountRequests(CountRequests {}).into(),
+            VerbK::Hc => RequestType::QueryHealthChecks(QueryHealthChecks { cluster_id: None }).into(),
+            VerbK::Certs => RequestType::QueryCertificatesFromTheState(QueryCertificatesFilters::default()).into(),
+            VerbK::QueryById => RequestType::QueryClusterById("c0".into()).into(),
+            VerbK::QueryDomain => RequestType::QueryClustersByDomain(QueryClusterByDomain { hostname: "example.com".into(), path: None }).into(),
+            VerbK::QueryCerts => RequestType::QueryCertificatesFromWorkers(QueryCertificatesFilters::default()).into(),
             VerbK::List => RequestType::ListWorkers(ListWorkers {}).into(),
             VerbK::NoneReq => Request { request_type: None },
             VerbK::Launch => RequestType::LaunchWorker("w".into()).into(),
@@ -357,11 +512,14 @@ impl<'a> Run<'a> {
                     if let Some(h) = self.rig.hub.take() {
                         match h.join() {
                             Ok(Ok(_)) => {}
+                            Ok(Err(e)) if e.contains("cannot load configuration") => {
+                                self.r.oracle.push(("reload-bad-path-crashes-main".into(), format!("a client's ReloadConfiguration of an unloadable path kills the main process: {e}")));
+                            }
                             Ok(Err(e)) => self.r.oracle.push(("hub-crash".into(), e)),
                             Err(_) => self.r.oracle.push(("hub-crash".into(), "hub thread panicked".into())),
                         }
                     }
-                    if !self.stop_seen {
+                    if !self.stop_seen && !self.crash_expected {
                         self.r.oracle.push(("hub-exited-without-stop".into(), format!("op {op_idx}")));
                     }
                 } else {
@@ -390,7 +548,8 @@ impl<'a> Run<'a> {
             while let Some(resp) = p.take::<Response>() {
                 let code = status_code(resp.status);
                 // attribute to the oldest unfinished request of this client
-                let target = self.reqs.iter_mut().find(|q| q.client == *c && q.finals.is_empty() && !q.dropped);
+                let other_pending = self.reqs.iter().any(|q| q.client == *c && q.pipelined_first && q.finals.is_empty());
+                let target = self.reqs.iter_mut().find(|q| q.client == *c && q.finals.is_empty() && !q.dropped && !q.pipelined_first);
                 let mut text = code.to_string();
                 match target {
                     Some(q) => {
@@ -400,6 +559,13 @@ impl<'a> Run<'a> {
                                 let log = parse_failure_log(&resp.message);
                                 text = if log == "~" { "F".into() } else { format!("F[{log}]") };
                             }
+                        }
+                    }
+                    None if other_pending => {
+                        // the connection carried two requests: a further answer is for the other one
+                        let q = self.reqs.iter_mut().find(|q| q.client == *c && q.pipelined_first && q.finals.is_empty()).unwrap();
+                        if code != 'P' {
+                            q.finals.push((code, op_idx));
                         }
                     }
                     None => {
@@ -448,38 +614,55 @@ impl<'a> Run<'a> {
     }
 
     fn do_req(&mut self, op_idx: usize, c: u64, verb: VerbK) -> String {
+        self.do_reqs(op_idx, c, vec![verb])
+    }
+
+    /// one client writes the given requests back to back in ONE write
+    fn do_reqs(&mut self, op_idx: usize, c: u64, verbs: Vec<VerbK>) -> String {
         if self.hub_gone {
             return "-".into();
         }
-        let idx = self.reqs.len();
-        let req = self.build_request(idx, &verb);
         if !self.clients.contains_key(&c) {
             let p = self.rig.connect();
             self.clients.insert(c, p);
         }
         let targeted = self.live_workers();
-        self.reqs.push(ReqInfo {
-            client: c,
-            verb: verb.clone(),
-            at: op_idx,
-            targeted: targeted.clone(),
-            task: None,
-            answers: vec![],
-            closed_while_pending: vec![],
-            unsendable: vec![],
-            touched_at: vec![],
-            finals: vec![],
-            eof_at: None,
-            dropped: false,
-            sent_at: Instant::now(),
-            age: 0,
-        });
-        if verb.is_stop() {
+        let mut bytes = vec![];
+        let n = verbs.len();
+        for (i, verb) in verbs.iter().enumerate() {
+            let idx = self.reqs.len();
+            let req = self.build_request(idx, verb);
+            bytes.extend(frame(&req));
+            self.reqs.push(ReqInfo {
+                client: c,
+                verb: verb.clone(),
+                at: op_idx,
+                targeted: targeted.clone(),
+                task: None,
+                answers: vec![],
+                closed_while_pending: vec![],
+                unsendable: vec![],
+                touched_at: vec![],
+                finals: vec![],
+                eof_at: None,
+                dropped: false,
+                pipelined_first: i + 1 < n,
+                sent_at: Instant::now(),
+                age: 0,
+            });
+        }
+        let idx = self.reqs.len() - 1;
+        let verb = verbs[n - 1].clone();
+        if verb.is_stop() && !self.deny {
             self.stop_seen = true;
         }
-        self.clients.get_mut(&c).unwrap().send_raw(&frame(&req));
+        if verb == VerbK::ReloadBad && !self.deny {
+            self.crash_expected = true;
+        }
+        self.clients.get_mut(&c).unwrap().send_raw(&bytes);
         // the workers receive the scattered requests: learn the ids
-        if verb.gathers() {
+        let scattered = if self.deny { 0 } else if let VerbK::LoadCorrupt(k) = verb { k } else if verb.gathers() { verb.subs() } else { 0 };
+        if scattered > 0 {
             let unsendable: Vec<u64> =
                 if verb == VerbK::AddBig { targeted.iter().copied().filter(|w| self.small.contains(w)).collect() } else { vec![] };
             // as coded, a worker whose channel refused the frame is flagged in
@@ -490,7 +673,7 @@ impl<'a> Run<'a> {
             }
             self.reqs[idx].unsendable = unsendable.clone();
             for w in targeted.into_iter().filter(|w| !unsendable.contains(w)) {
-                for _ in 0..verb.subs() {
+                for _ in 0..scattered {
                     let Some(peer) = self.rig.workers[w as usize].as_mut() else { continue };
                     match peer.recv::<WorkerRequest>(Duration::from_secs(3)) {
                         Some(wr) => {
@@ -502,7 +685,9 @@ impl<'a> Run<'a> {
                                         self.r.oracle.push(("scatter-wrong-worker".into(), format!("worker {w} received id {}", wr.id)));
                                     }
                                     self.ids.insert((wk, task, sub), wr.id.clone());
-                                    self.reqs[idx].task = Some(task);
+                                    if verb.gathers() {
+                                        self.reqs[idx].task = Some(task);
+                                    }
                                 }
                             }
                         }
@@ -566,6 +751,17 @@ impl<'a> Run<'a> {
                 }
                 _ => "bad-op".into(),
             },
+            ["req2", c, rest @ ..] => {
+                let parts: Vec<Vec<&str>> = rest.split(|w| *w == "|").map(|x| x.to_vec()).collect();
+                let verbs: Option<Vec<VerbK>> = parts.iter().map(|p| VerbK::parse(p)).collect();
+                match (c.parse::<u64>(), verbs) {
+                    (Ok(c), Some(v)) if v.len() >= 2 => {
+                        self.r.tags.push("pipelined-requests".into());
+                        self.do_reqs(op_idx, c, v)
+                    }
+                    _ => "bad-op".into(),
+                }
+            }
             ["ans", w_, rw, rt, rs, st] if ["ok", "fail", "proc"].contains(st) => {
                 match (w_.parse(), rw.parse(), rt.parse(), rs.parse()) {
                     (Ok(a), Ok(b), Ok(c), Ok(d)) => {
@@ -779,7 +975,7 @@ fn run_case(ops: &[String], r: &mut ImplRun) -> bool {
     let first: Vec<&str> = ops.first().map(|s| s.split_whitespace().collect()).unwrap_or_default();
     let (nw, t, nsmall) = match first.as_slice() {
         ["new", w, t] => (w.parse::<usize>().unwrap_or(0).min(8), t.parse::<u64>().unwrap_or(T_UNITS), 0usize),
-        ["new", w, t, sm] => (
+        ["new", w, t, sm] | ["new", w, t, sm, "deny"] => (
             w.parse::<usize>().unwrap_or(0).min(8),
             t.parse::<u64>().unwrap_or(T_UNITS),
             sm.parse::<usize>().unwrap_or(0),
@@ -793,7 +989,11 @@ fn run_case(ops: &[String], r: &mut ImplRun) -> bool {
         r.out = ops.iter().map(|_| "bad-op".to_string()).collect();
         return false;
     }
-    let rig = Rig::start_small(nw, 1, nsmall);
+    let deny = first.len() == 5;
+    let rig = Rig::start_cfg(nw, 1, nsmall, deny);
+    if deny {
+        r.tags.push("uid-not-allowed".into());
+    }
     r.out.push("ok".into());
     r.tags.push(format!("workers:{nw}"));
     if nsmall > 0 {
@@ -815,6 +1015,8 @@ fn run_case(ops: &[String], r: &mut ImplRun) -> bool {
         hold: None,
         hold_path: None,
         fake_hold: false,
+        deny,
+        crash_expected: false,
         op_names: ops.iter().map(|o| o.split_whitespace().next().unwrap_or("").to_string()).collect(),
     };
     for (i, op) in ops.iter().enumerate().skip(1) {
@@ -833,6 +1035,16 @@ fn run_case(ops: &[String], r: &mut ImplRun) -> bool {
 
 /// The property's own oracles, from what the script did and what the clients saw.
 fn oracles(run: &mut Run, nops: usize) {
+    if run.deny {
+        for (w, peer) in run.rig.workers.iter_mut().enumerate() {
+            if let Some(p) = peer.as_mut() {
+                p.drain();
+                if p.take::<WorkerRequest>().is_some() {
+                    run.r.oracle.push(("unauthorized-request-scattered".into(), format!("worker {w} was sent a request of a client outside command_allowed_uids")));
+                }
+            }
+        }
+    }
     let overlap = run.reqs.len() >= 2
         && run.reqs.windows(2).any(|w| w[0].finals.first().map(|f| f.1 > w[1].at).unwrap_or(true));
     if overlap {
@@ -849,7 +1061,7 @@ fn oracles(run: &mut Run, nops: usize) {
         let fin_at = q.finals.first().map(|f| f.1).unwrap_or(usize::MAX);
         let before: Vec<_> = q.answers.iter().filter(|a| a.4 <= fin_at).collect();
         let acked = |w: u64| (0..q.verb.subs() as u64).all(|s| {
-            let sub = if matches!(q.verb, VerbK::Load(_)) { s + 1 } else { 0 };
+            let sub = match q.verb { VerbK::Load(_) => s + 1, VerbK::Reload(_) => s, _ => 0 };
             before.iter().any(|a| a.1 == w && a.0 == w && a.2 == sub && a.3)
         });
         // a Failure counts when it is the FIRST terminal answer given for an id
@@ -876,8 +1088,14 @@ fn oracles(run: &mut Run, nops: usize) {
         // ---- exactly one final answer ----
         if nfinals == 0 {
             let expired = q.age > T_UNITS;
-            let class = if q.verb.no_answer() {
+            let class = if q.pipelined_first {
+                Some("pipelined-request-dropped")
+            } else if q.verb == VerbK::ReloadBad && !run.deny {
+                None // the main process died in the handler: reported as reload-bad-path-crashes-main
+            } else if q.verb.no_answer() {
                 Some("no-answer-verb")
+            } else if run.crash_expected && q.eof_at.is_some() {
+                None // the main process was killed by another client's request
             } else if q.eof_at.is_some() && (stop_at.is_some() || run.stop_seen) {
                 if q.verb.is_stop() { Some("stop-without-answer") } else { Some("pending-request-dropped-at-stop") }
             } else if q.verb.gathers() && !q.verb.has_deadline() {
@@ -893,13 +1111,23 @@ fn oracles(run: &mut Run, nops: usize) {
         }
         // (a second final answer is reported where it is received)
         // ---- verdict ----
+        if run.deny {
+            if let Some((code, _)) = q.finals.first().copied() {
+                if code != 'F' {
+                    run.r.oracle.push(("unauthorized-client-not-refused".into(), format!("request {qi} ({:?}) from a uid outside command_allowed_uids was answered {code}", q.verb)));
+                }
+            }
+            continue;
+        }
         if let Some((code, at)) = q.finals.first().copied() {
             if code == 'O' && q.verb.gathers() && !impersonated {
                 if failed && q.verb.is_mutating() {
                     run.r.oracle.push(("ok-despite-worker-failure".into(), format!("request {qi} ({:?}): Ok at op {at} although a worker answered Failure before", q.verb)));
                 } else if !all_acked || failed {
                     let missing: Vec<u64> = q.targeted.iter().copied().filter(|w| !acked(*w)).collect();
-                    let class = if !q.verb.is_mutating() {
+                    let class = if q.verb == VerbK::MetricDetail {
+                        "metricdetail-ok-without-all-workers"
+                    } else if !q.verb.is_mutating() {
                         if q.verb.is_stop() { "stop-ok-without-all-workers" } else { "query-ok-without-all-workers" }
                     } else if missing.iter().any(|w| q.unsendable.contains(w)) {
                         "ok-despite-unsendable-worker"
@@ -916,7 +1144,7 @@ fn oracles(run: &mut Run, nops: usize) {
             if code == 'F' && q.verb.gathers() && all_acked && !failed && !dup {
                 run.r.oracle.push(("failure-despite-all-ok".into(), format!("request {qi} ({:?}): Failure at op {at} although every targeted worker acknowledged", q.verb)));
             }
-            if code == 'O' && matches!(q.verb, VerbK::Bad | VerbK::LoadMissing) {
+            if code == 'O' && matches!(q.verb, VerbK::Bad | VerbK::LoadMissing | VerbK::LoadCorrupt(_) | VerbK::MetricDetailBad) {
                 run.r.oracle.push(("ok-for-rejected-request".into(), format!("request {qi} ({:?})", q.verb)));
             }
             // ---- the answer arrived at an op that concerns this request ----
@@ -975,6 +1203,20 @@ fn corpus_cases() -> Vec<Vec<String>> {
         // the frame) stays expected: failure at the deadline; it is closed meanwhile
         s(&["new 2 10 1", "req 0 addbig", "ans 0 0 0 0 ok", "req 1 add", "ans 0 0 1 0 ok", "adv 12"]),
         s(&["new 3 10 2", "req 0 add", "req 1 addbig", "ans 0 0 1 0 ok", "ans 0 0 0 0 ok", "ans 1 1 0 0 ok", "ans 2 2 0 0 ok", "adv 12"]),
+        // the client hangs up while its request is pending: the verdict goes nowhere, nobody else gets it
+        s(&["new 2 10", "req 0 add", "req 1 add", "drop 0", "ans 0 0 0 0 ok", "ans 1 1 0 0 ok", "ans 0 0 1 0 ok", "ans 1 1 1 0 ok"]),
+        // two requests in one write: only the last one is dispatched (open: pipelined-request-dropped)
+        s(&["new 1 10", "req2 0 list | add", "ans 0 0 0 0 ok"]),
+        // LoadState of a corrupt file: entries read so far are scattered, the client is told the failure, the task id is spent
+        s(&["new 1 10", "req 0 loadcorrupt 2", "req 1 add", "ans 0 0 1 0 ok", "adv 12"]),
+        // ReloadConfiguration: 5 messages, one refused by the worker; no deadline
+        s(&["new 1 10", "req 0 reload 5", "ans 0 0 0 0 ok", "ans 0 0 0 1 fail", "ans 0 0 0 2 ok", "ans 0 0 0 3 ok", "adv 12", "ans 0 0 0 4 ok"]),
+        // ReloadConfiguration of an unloadable path kills the main process (open: reload-bad-path-crashes-main)
+        s(&["new 1 10", "req 0 add", "req 1 reloadbad", "req 2 list"]),
+        // SetMetricDetail: Ok "completed with worker errors" (open: metricdetail-ok-without-all-workers); refused when invalid
+        s(&["new 2 10", "req 0 metricdetail", "ans 0 0 0 0 fail", "ans 1 1 0 0 ok", "req 1 metricdetailbad", "req 2 maxconn", "ans 0 0 1 0 ok", "ans 1 1 1 0 fail"]),
+        // a uid outside command_allowed_uids: everything is refused, nothing scattered, stop verbs do not stop
+        s(&["new 2 10 0 deny", "req 0 add", "req 1 hardstop", "req 2 none", "req 3 reloadbad", "req 4 list"]),
         // one poll batch: Ok from worker 0 and Failure from worker 1 together
         s(&["new 2 10", "req 0 add", "hold", "ans 0 0 0 0 ok", "ans 0 0 0 0 ok", "ans 1 1 0 0 fail", "release"]),
     ]
@@ -993,9 +1235,20 @@ fn gen_case(rng: &mut Rng, thorough: bool) -> Vec<String> {
         ops.push(format!("close {w}"));
         closed.push(w);
     }
+    // a client whose uid is not in command_allowed_uids: every request is refused
+    if rng.chance(1, 16) {
+        let mut ops = vec![format!("new {nw} {T_UNITS} 0 deny")];
+        for c in 0..rng.range(2, 5) {
+            let v = *rng.pick(&["add", "addbig", "query", "status", "list", "hardstop", "softstop", "load 1", "reload 5", "reloadbad", "none", "launch", "metricdetail", "count", "bad"]);
+            ops.push(format!("req {c} {v}"));
+        }
+        return ops;
+    }
     let nreq = *rng.pick(&[1u64, 1, 2, 2, 3]);
     // pending events of each request: per worker a queue of (answer ops)
     struct Pending {
+        client: u64,
+        dropped: bool,
         task: u64,
         queues: Vec<Vec<String>>,
         late: Vec<String>,
@@ -1021,21 +1274,34 @@ fn gen_case(rng: &mut Rng, thorough: bool) -> Vec<String> {
             issued += 1;
             let verb = match rng.below(100) {
                 0..=44 if nsmall > 0 && rng.chance(1, 2) => "addbig".to_string(),
-                0..=44 => "add".to_string(),
-                45..=52 => "query".into(),
+                0..=36 => "add".to_string(),
+                37..=39 => (*rng.pick(&["maxconn", "confmetrics"])).to_string(),
+                40..=42 => "metricdetail".into(),
+                43 => "metricdetailbad".into(),
+                44 => "reloadbad".into(),
+                45..=49 => "query".into(),
+                50..=52 => (*rng.pick(&["querybyid", "querydomain", "querycerts"])).to_string(),
                 53..=60 => "status".into(),
                 61..=64 => "metrics".into(),
-                65..=71 => format!("load {}", rng.range(1, 2)),
-                72..=74 => "loadmissing".into(),
+                65..=69 => format!("load {}", rng.range(1, 2)),
+                70..=71 => format!("loadcorrupt {}", rng.below(3)),
+                72..=73 => "loadmissing".into(),
+                74 => "reload 5".into(),
                 75..=78 => "bad".into(),
-                79..=83 => "list".into(),
+                79..=81 => "list".into(),
+                82..=83 => (*rng.pick(&["count", "hc", "certs"])).to_string(),
                 84..=86 => (*rng.pick(&["none", "launch", "retsock"])).to_string(),
                 87..=93 => "hardstop".into(),
                 _ => "softstop".into(),
             };
             let vk = VerbK::parse(&verb.split_whitespace().collect::<Vec<_>>()).unwrap();
-            ops.push(format!("req {c} {verb}"));
-            if vk.is_stop() {
+            // now and then the client writes another request just before, in the same write
+            if !vk.is_stop() && vk != VerbK::ReloadBad && vk != VerbK::AddBig && rng.chance(1, 14) {
+                ops.push(format!("req2 {c} {} | {verb}", *rng.pick(&["list", "count", "bad"])));
+            } else {
+                ops.push(format!("req {c} {verb}"));
+            }
+            if vk.is_stop() || vk == VerbK::ReloadBad {
                 stopped = true;
             }
             if vk == VerbK::AddBig {
@@ -1051,6 +1317,9 @@ fn gen_case(rng: &mut Rng, thorough: bool) -> Vec<String> {
                     }
                 }
             }
+            if matches!(vk, VerbK::LoadCorrupt(_)) {
+                next_task += 1; // the cancelled task spent an id
+            }
             if vk.gathers() {
                 let task = next_task;
                 next_task += 1;
@@ -1059,7 +1328,7 @@ fn gen_case(rng: &mut Rng, thorough: bool) -> Vec<String> {
                 for w in (0..nw).filter(|w| !closed.contains(w)) {
                     let mut q = vec![];
                     for sidx in 0..vk.subs() as u64 {
-                        let sub = if matches!(vk, VerbK::Load(_)) { sidx + 1 } else { 0 };
+                        let sub = match vk { VerbK::Load(_) => sidx + 1, VerbK::Reload(_) => sidx, _ => 0 };
                         let a = |st: &str| format!("ans {w} {w} {task} {sub} {st}");
                         match rng.below(100) {
                             0..=44 => q.push(a("ok")),
@@ -1080,7 +1349,7 @@ fn gen_case(rng: &mut Rng, thorough: bool) -> Vec<String> {
                     }
                     queues.push(q);
                 }
-                pend.push(Pending { task, queues, late, age: 0, deadline: vk.has_deadline() });
+                pend.push(Pending { client: c, dropped: false, task, queues, late, age: 0, deadline: vk.has_deadline() });
             }
             continue;
         }
@@ -1116,6 +1385,11 @@ fn gen_case(rng: &mut Rng, thorough: bool) -> Vec<String> {
             continue;
         }
         let (pi, qi) = *rng.pick(&choices);
+        // now and then the client hangs up while its request is pending
+        if !holding && !pend[pi].dropped && rng.chance(1, 20) {
+            pend[pi].dropped = true;
+            ops.push(format!("drop {}", pend[pi].client));
+        }
         let ev = pend[pi].queues[qi].remove(0);
         if let Some(rest) = ev.strip_prefix("close ") {
             let w: u64 = rest.parse().unwrap();
